@@ -42,7 +42,8 @@ pub struct ExploreOut {
 /// `check` returns false to stop the exploration early (first violation is enough).
 pub fn explore<W, MK, CHK>(cfg: &ExploreCfg, mut mk: MK, mut check: CHK) -> ExploreOut
 where
-    MK: FnMut() -> (Vec<Body>, W),
+    W: Send,
+    MK: FnMut() -> (Vec<Body>, W) + Send,
     CHK: FnMut(&ExecResult, W, &[u8]) -> bool,
 {
     let t0 = Instant::now();
@@ -60,7 +61,15 @@ where
                 break 'restart;
             }
             sched::reset_lock_keys();
-            let (bodies, world) = mk();
+            // Same hash seeds in every execution: std's RandomState takes per-thread keys from
+            // getrandom (served by kvshim from (epoch, call counter)) and then increments them per
+            // map, so the world is built on a FRESH thread after resetting the counter. Otherwise
+            // HashMap iteration order (e.g. the order a drain visits documents) drifts between
+            // executions and replayed prefixes diverge.
+            if vcore::shimctl::loaded() {
+                vcore::shimctl::ctl(vcore::shimctl::CMD_RAND_EPOCH, 7, 0);
+            }
+            let (bodies, world) = std::thread::scope(|s| s.spawn(|| mk()).join().expect("world builder panicked"));
             let res = sched::run_one(
                 bodies,
                 RunConfig { prefix: prefix.clone(), max_steps: cfg.max_steps, conflict: conf_arc.clone(), record_trace: std::env::var("KSCHED_TRACE").is_ok(), wall_limit: Duration::from_secs(120) },
@@ -131,5 +140,21 @@ where
         break;
     }
     out.conflict_locks = conflict.len();
+    DIVERGED_TOTAL.fetch_add(out.diverged, std::sync::atomic::Ordering::Relaxed);
+    EXECS_TOTAL.fetch_add(out.executions, std::sync::atomic::Ordering::Relaxed);
+    vcore::par::KSCHED_DIVERGED.fetch_add(out.diverged, std::sync::atomic::Ordering::Relaxed);
+    vcore::par::KSCHED_EXECS.fetch_add(out.executions, std::sync::atomic::Ordering::Relaxed);
+    if out.diverged > 0 && std::env::var("KSCHED_REPORT_DIVERGENCE").is_ok() {
+        eprintln!("ksched: {} of {} executions diverged from their replayed prefix", out.diverged, out.executions);
+    }
     out
+}
+
+/// Process-wide count of executions whose replayed prefix did not reproduce (a choice index out
+/// of range of the enabled set): evidence of nondeterminism the scheduler does not own.
+pub static DIVERGED_TOTAL: std::sync::atomic::AtomicU64 = std::sync::atomic::AtomicU64::new(0);
+pub static EXECS_TOTAL: std::sync::atomic::AtomicU64 = std::sync::atomic::AtomicU64::new(0);
+
+pub fn divergence() -> (u64, u64) {
+    (DIVERGED_TOTAL.load(std::sync::atomic::Ordering::Relaxed), EXECS_TOTAL.load(std::sync::atomic::Ordering::Relaxed))
 }
